@@ -185,6 +185,10 @@ class WebSession(object):
         except ValueError as error:
             raise ProtocolError('Invalid redirect location.') from error
 
+        if request.url_info.scheme not in ('http', 'https'):
+            # Such as mailto: which has no host to connect to.
+            raise ProtocolError('Redirect location is not a HTTP URL.')
+
         self._next_request = request
 
         _logger.debug('Updated next redirect request to {0}.'.format(request))
